@@ -373,6 +373,21 @@ def enumerate_cases(tier):
         cases.append({"cls": "i", "argv": ["lower(" * n + "name" + ")" * n + " from ."], "expect2": False})
         cases.append({"cls": "i", "argv": ["name from . where " + "{" * n + "size > 1"], "expect2": True})
     cases.append({"cls": "i", "argv": ["name from . where " + "not " * 30000 + "is_dir"], "expect2": False})
+    # flat chains without any nesting, as long as a command line can be: one argument holds 128 KB, so the long
+    # ones come as one argument per word (an argument with a blank in it would be taken for one text value);
+    # the tree of `a or a or a ...` must not be as deep as the chain is long
+    for word, cond in (("or", "size < 0"), ("and", "size >= 0")):
+        cases.append({"cls": "i", "argv": ["name from . where " + cond + (" %s %s" % (word, cond)) * 9000], "expect2": False})
+        for n in (20000, 40000):
+            cases.append({"cls": "i", "argv": "name from . where".split() + cond.split() + ([word] + cond.split()) * n, "expect2": False})
+    cases.append({"cls": "i", "argv": "name from . where size < 0".split() + "or size < 0 and is_dir".split() * 20000, "expect2": False})
+    cases.append({"cls": "i", "argv": ["name from . where not ( size < 0" + " or size < 0" * 3000 + " )"], "expect2": False})
+    for sign in ("+", "-", "*", "/", "%"):
+        for n in (900, 17000, 30000):
+            cases.append({"cls": "i", "argv": ["select 1" + (" %s 1" % sign) * n + " from ."], "expect2": False})
+            cases.append({"cls": "i", "argv": ["name from . where size > 1" + (" %s 1" % sign) * n], "expect2": False})
+    cases.append({"cls": "i", "argv": ["select concat(" + "name, " * 20000 + "name) from ."], "expect2": False})
+    cases.append({"cls": "i", "argv": ["select name" + ", name" * 20000 + " from . limit 1"], "expect2": False})
     # a bracket opened right after a function word and never closed; a `not` with nothing to negate
     for f in ["lower", "length", "concat", "abs", "year", "min"]:
         for t in ["%s( from .", "name, %s(", "name, %s(( from .", "name, %s{ from .", "name from . where size > %s(",
